@@ -1,4 +1,5 @@
 import Crusta.Proofs.Oracle
+import Crusta.Proofs.StaticAll
 
 /-! # C04 — certificates (property theorems) -/
 
@@ -39,5 +40,29 @@ theorem no_cert_slot (af : AF) (q : Query) (st : Bool) (c : Option (List Nat))
   · exact absurd rfl ht
   · simp only [checkAnswer]; split <;> simp
   · simp only [checkAnswer]; split <;> simp
+
+
+/-- **C04 on the solver programs**: the certificates of the `_with_certificate` entry points —
+credulous YES comes with an extension containing a queried argument, skeptical NO with an extension
+containing none; credulous NO and skeptical YES come with no certificate; the certificate-less
+entry points return none -/
+theorem certificates_witness (sk : SolverKind) (cfg : Cfg) (hcfg : CfgOK sk cfg) (v : FwView) (g : G) (hv : v.Ok g)
+    (cert : Bool) (args : List Nat) (hargs : ∀ a ∈ args, g.live a = true) (w : World) (hb : w.Bounded)
+    (rs : List Reply) (a : AccAns) (cv : Bool) (w' : World) :
+    (∀ p, entryProg sk cfg v (.dc cert args) = some p → RunSound p rs w → interp p rs w = (.done (.acc a cv), w') →
+      (cert = false → a.cert = none) ∧
+      (cert = true → (a.status = true → ∃ e, a.cert = some e ∧ sk.sem.GExt g (ofList e) ∧ HitsL args (ofList e)) ∧
+                     (a.status = false → a.cert = none))) ∧
+    (∀ p, entryProg sk cfg v (.ds cert args) = some p → RunSound p rs w → interp p rs w = (.done (.acc a cv), w') →
+      (cert = false → a.cert = none) ∧
+      (cert = true → (a.status = false → ∃ e, a.cert = some e ∧ sk.sem.GExt g (ofList e) ∧ ¬ HitsL args (ofList e)) ∧
+                     (a.status = true → a.cert = none))) := by
+  constructor
+  · intro p hp hs hrun
+    obtain ⟨_, hdc, hnc⟩ := static_answers_conform sk cfg hcfg v g hv (.dc cert args) (fun x hx => hargs x hx) p hp w hb rs hs _ w' hrun
+    exact ⟨hnc, fun hc => ⟨fun hst => (hdc.1 hst).2 hc, fun hst => (hdc.2 hst).2 hc⟩⟩
+  · intro p hp hs hrun
+    obtain ⟨_, hds, hnc⟩ := static_answers_conform sk cfg hcfg v g hv (.ds cert args) (fun x hx => hargs x hx) p hp w hb rs hs _ w' hrun
+    exact ⟨hnc, fun hc => ⟨fun hst => (hds.2 hst).2 hc, fun hst => (hds.1 hst).2 hc⟩⟩
 
 end Crusta.C04
